@@ -213,10 +213,95 @@ def lexer_suite(chk, oracle, sp, jobs, props, lex_n, pipe_n, profile='dev'):
         confirm_violations(chk, res, oracle, sp, 'bytes->tree on a %d-byte string' % n, props)
 
 
+CASE = BLOCK + ['CASE_KW', 'IDENT', 'L_BRACE']
+TYPEQ = ['TYPE_KW', 'U_IDENT', 'EQ']
+# (name, prefix P, nesting opener N, rest after the symbolic tokens); every N adds exactly ONE level of nesting (checked by the native
+# validation of where the limit triggers) and P stays at most 1 level deep (margin 2)
+NEST_FAMILIES = [
+    ('expr-list', BLOCK, ['L_SQUARE'], ['R_BRACE', 'FN_KW', 'IDENT', 'L_PAREN', 'R_PAREN', 'L_BRACE', 'R_BRACE']),
+    ('expr-tuple', BLOCK, ['HASH', 'L_PAREN'], ['R_BRACE']),
+    ('expr-call', BLOCK, ['IDENT', 'L_PAREN'], []),
+    ('expr-block', BLOCK, ['L_BRACE'], ['R_BRACE']),
+    ('pattern-list', CASE, ['L_SQUARE'], ['R_ARROW', 'IDENT', 'R_BRACE', 'R_BRACE']),
+    ('pattern-tuple', CASE, ['HASH', 'L_PAREN'], []),
+    ('pattern-ctor', CASE, ['U_IDENT', 'L_PAREN'], ['R_BRACE']),
+    ('type-app', TYPEQ, ['U_IDENT', 'L_PAREN'], ['CONST_KW', 'IDENT', 'EQ', 'INTEGER']),
+    ('type-tuple', TYPEQ, ['HASH', 'L_PAREN'], []),
+    ('type-fn', TYPEQ, ['FN_KW', 'L_PAREN'], ['R_PAREN']),
+]
+
+
+def deep_factory(n, P, N, j, rest):
+    return synspecs.DeepTokenSpec(n, P, N, j, rest, margin=2)
+
+
+def deep_text(sp, oracle, d):
+    kinds = [syn.KINDS[k] if isinstance(k, str) else k for k in (list(d['P']) + list(d['N']) * d['times'] + list(d['rest']))]
+    return sp.text_for(kinds, oracle)
+
+
+def deep_suite(chk, oracle, sp, jobs, props, n, j, profile='dev', families=None):
+    """the depth-limit path of the parser, from a symbolic start depth (see DeepTokenSpec); natively replayed on the pumped text"""
+    info = synspecs.parser_depth_info()
+    if info is None:
+        chk.log('the parser has no MAX_DEPTH / depth field in the current tree: depth-limit runs skipped (unbounded recursion is then probed by C02 natively)')
+        return
+    for name, P, N, rest in (families or NEST_FAMILIES):
+        res, complete = explore.explore(deep_factory, (n, tuple(P), tuple(N), j, tuple(rest)), jobs=jobs)
+        chk.add_run('deep[%s] %s: P+N*(%d+d0)+%d tokens+rest, d0 symbolic' % (profile, name, j, n), res, complete,
+                    {'symbolic_tokens': n, 'start_depth': 'symbolic, MAX_DEPTH(%d)-%d .. MAX_DEPTH-2' % (info[1], 4 + j), 'prefix': list(P), 'nester': list(N), 'rest': list(rest), 'profile': profile},
+                    nontrivial_classes=lambda c: c != 'ok-clean')
+        seen = set()
+        for v in res.violations:
+            whys = [w for w in v.get('why', []) if w.startswith(tuple(props))]
+            if not whys:
+                continue
+            d = v['cex']['deep']
+            txt = deep_text(sp, oracle, d)
+            if txt is None:
+                chk.extra['unrealisable'] = chk.extra.get('unrealisable', 0) + 1
+                continue
+            nv = native_verdict(oracle, txt)
+            mine = [x for x in nv if x[0] in props]
+            desc = 'nesting %s x%d (start depth %d): %s; input %r...%r (%d bytes)' % (''.join(d['N']), d['times'], d['start_depth'], '; '.join(whys), txt[:60], txt[-60:], len(txt))
+            if mine:
+                key = (mine[0][1], name)
+                if key in seen:
+                    continue
+                seen.add(key)
+                chk.violation(mine[0][1], 'bounded', desc + '; native: ' + mine[0][2], {'text': txt, 'deep': d}, confirmed=True)
+            else:
+                chk.violation('engine', 'bounded', desc + '; native code shows no problem', {'text': txt, 'deep': d}, confirmed=False)
+        ok = 0; tot = 0; ndeep = 0
+        for smp in res.extra.get('deep_samples', []):
+            txt = deep_text(sp, oracle, smp['deep'])
+            if txt is None:
+                continue
+            tot += 1
+            nat = oracle.ask('parse', txt)
+            if 'tree' not in nat:
+                chk.inconclusive.append('deep %s: translator validation: native %s on the pumped text, engine path returned normally' % (name, str(nat)[:200])); continue
+            # the depth limit must trigger at the same token: engine token index + d0*len(N) == native token index
+            trivia_hi = syn.KINDS['COMMENT_MODULE']
+            toks = [t for t in oracle.ask('lex', txt)['tokens'] if t[0] > trivia_hi]
+            idx = {(t[1], t[2]): i for i, t in enumerate(toks)}
+            shift = smp['deep']['start_depth'] * len(smp['deep']['N'])
+            nb = len(txt.encode('utf-8'))
+            nat_deep = sorted(idx.get((s_, e_), len(toks) if s_ == e_ == nb else -1) for (s_, e_, k_) in nat['errors'] if k_ == 'NestTooDeep')
+            eng_deep = sorted((s_ if t_ == s_ + 1 else smp['ntokens']) + shift for (s_, t_, k_) in smp['errors'] if k_ == 'NestTooDeep')
+            if nat_deep == eng_deep:
+                ok += 1; ndeep += bool(nat_deep)
+            else:
+                chk.inconclusive.append('deep %s: translator validation FAILED (start depth %d, x%d): engine reports NestTooDeep at tokens %s, the native parser at %s' % (name, smp['deep']['start_depth'], smp['deep']['times'], eng_deep, nat_deep))
+        chk.validated += ok
+        chk.log('deep %s: translator validation %d/%d sampled paths hit (or do not hit) the depth limit at the same token as the native parser on the pumped text (%d of them hit it)' % (name, ok, tot, ndeep))
+
+
 SYN_ASSUMPTIONS = [
     'token-kind mode: the lexer call inside parse_module is replaced by a vector of tokens with symbolic kinds (ranges [i,i+1)); every other statement of parse_module / module / grammar functions / build_tree is the real MIR of the current tree',
     'kind sequences the real lexer cannot produce (adjacent tokens that would merge) are explored too; a counterexample is reported only after a lexer-realisable model of the same path reproduced natively',
     'lexer: one next() from offset 0 of every valid UTF-8 string of the stated length; longer texts follow by induction over the remaining suffix (logos keeps no state between tokens except the end offset) for tokens, including their look-ahead, that fit in the bound',
+    'deep runs: the parser starts at a symbolic nesting depth d0 (Parser.depth replaced when the struct is built); since depth is only compared in Parser::enter, the run on P+N^j+rest from depth d0 is taken as the run on P+N^(j+d0)+rest from depth 0; every counterexample and up to 40 sampled paths per family are replayed natively on that pumped text',
     'a call depth above 400 frames is reported as stack overflow; real stack limits are exercised only by the native replay of pumped inputs',
 ]
 SYN_TRUSTED = ['rustc MIR (-Zunpretty=mir, stable toolchain of the repository) as the semantics of the source',
